@@ -9,6 +9,7 @@ from __future__ import annotations
 
 import math
 import warnings
+from datetime import datetime, timedelta
 from fractions import Fraction
 
 import numpy as np
@@ -17,15 +18,19 @@ from verif import framework as fw
 from verif import scen  # noqa: F401  (installs the in-process fake ray before resonaate is imported)
 from verif.oracles import visgeom as vg
 
-from resonaate.common.labels import Explanation
+from resonaate.common.labels import Explanation, PlatformLabel
 from resonaate.physics import constants as rconst
 from resonaate.physics.bodies import Earth
 from resonaate.physics.bodies.third_body import Sun
 from resonaate.physics.maths import subtendedAngle, wrapAngle2Pi
 from resonaate.physics.measurements import getAzimuth, getElevation, getRange
 from resonaate.physics import sensor_utils as su
+from resonaate.physics.time.stardate import datetimeToJulianDate
+from resonaate.physics.transforms.methods import getSlantRangeVector
 from resonaate.scenario.config.sensor_config import (
+    AdvRadarConfig,
     ConicFieldOfViewConfig,
+    OpticalConfig,
     RadarConfig,
     RectangularFieldOfViewConfig,
 )
@@ -42,12 +47,25 @@ RULE = (
     "the north seam, el up to the zenith) x target offsets at {0,0.5,0.98,1.02} of the half-widths x rotations about "
     "the vertical; azimuth/elevation/range masks on a real Radar sensor built by sensorFactory; visible-Sun fraction "
     "along arcs through umbra and penumbra; Earth-limb and lighting/exclusion cones at threshold +/- {1e-9..1e-1} rad; "
-    "azimuth/elevation/wrap helpers at quadrant boundaries, seam and zenith. non-trivial = the decision depends on "
+    "azimuth/elevation/wrap helpers at quadrant boundaries, seam and zenith. CALLERS (which state each geometric "
+    "helper is handed): a real Optical sensor built by sensorFactory(OpticalConfig) on a stub host (eci_state, epoch, "
+    "platform type), isVisible() verdict AND miss reason against the whole documented decision chain evaluated in ECI "
+    "(range, segment/sphere line of sight, masks, umbra, visual magnitude, galactic cone, Sun cone, tangent cone with "
+    "apex at the SENSOR / site darkness): (optical/space/limb) every sensor radius x every target radius (LEO..10 R, "
+    "equal and different), 3 Sun-relative sensor positions x 4 position angles x nadir angles {coarse fill, Earth-disc "
+    "edge, the sensor's limb cone +/- offsets, the cone a sensor at the TARGET's distance would have +/- offsets} x "
+    "near / far crossing of the target shell, two detectable magnitudes, slant vector built geometrically and (one "
+    "position angle) by the library's getSlantRangeVector; (optical/space/cones) boresights about the Sun, anti-Sun, "
+    "galactic-centre and anti-centre axes at threshold +/- offsets; (optical/ground) sites at Sun angles about the "
+    "twilight threshold x az/el/range targets; (radar/callers) Radar and AdvRadar isVisible on ground/LEO/GEO hosts "
+    "at {0.5, 1-1e-6, 1+1e-6, 2} x the radar-equation range for 3 cross-sections. non-trivial = the decision depends on "
     "the mechanism: (los) the infinite line through the points comes within R+100 km of the geocentre; (fov) offset "
     "within 2% of an edge, or the azimuth pair straddles north, or pointing elevation >= 89 deg; (mask) azimuth "
     "within 1e-5 rad of a mask end or mask wraps through north; (sun) penumbra or within 2 solar radii of a shadow "
     "boundary; (limb/lighting/exclusion) within 1e-2 rad of the cone; (az/el) within 1e-5 rad of the seam, zenith "
-    "or a quadrant boundary. distinct by construction (lattice points)."
+    "or a quadrant boundary; (optical) the decision chain reaches the stage under examination (limb: expected VISIBLE or "
+    "LIMB_OF_EARTH; cones: galactic stage or later; ground: site darkness stage); (radar) base chain passed so the "
+    "sensitivity range decides. distinct by construction (lattice points)."
 )
 ASSUMPTIONS = [
     "reference geometry: rational arithmetic for the segment/sphere test, atan2-based angles elsewhere (verif/oracles/visgeom.py)",
@@ -57,6 +75,13 @@ ASSUMPTIONS = [
     "rectangular field of view is defined on azimuth/elevation differences (wrapped on the circle); at the exact zenith "
     "the azimuth is the one of the velocity (Vallado Alg. 27, as documented in getAzimuth)",
     "inputs within the derived rounding band of a predicate's own threshold are classified either-way",
+    "sensor-level chains: the Sun position is Sun.getPosition(host.julian_date_epoch) (ephemeris = another property); "
+    "apparent magnitude = Cognion 2013 Eq. 1/3 with the Sun at -26.74; radar range = radar equation for a flat plate "
+    "(own formulae in verif/oracles/visgeom.py); order of the exits as documented in Optical/Radar/Sensor.isVisible",
+    "Sun exclusion of a space sensor: the docstring says sensor->Sun, the caller hands target->Sun (parallax <= 7e-4 rad): "
+    "a case where the two disagree about the 15 deg cone is either-way",
+    "slant vectors made by getSlantRangeVector use the geodetic vertical (<= 3.4e-3 rad from the radial one): that much "
+    "either-way band on the limb for those cases only; geometrically built slant vectors use the radial vertical exactly",
 ]
 EXPECT_MIN_NONTRIVIAL = 50000
 
@@ -212,6 +237,15 @@ def items(tier, seed):
     out.append(("azel_zenith", tier, seed))
     out.append(("wrap", tier, seed))
     out.append(("subtended", tier, seed))
+    for si in range(len(_opt_sensor_radii(tier))):
+        for ti in range(len(_opt_target_radii(tier))):
+            out.append(("optical_limb", tier, seed, si, ti))
+    for ai in range(len(CONE_AXES)):
+        out.append(("optical_cones", tier, seed, ai))
+    for k in range(3):
+        out.append(("optical_ground", tier, seed, k))
+    for ki in range(len(RADAR_KINDS)):
+        out.append(("radar_callers", tier, seed, ki))
     return out
 
 
@@ -241,6 +275,29 @@ def bounds(tier, seed):
         "sun": {"radii_km": _sun_radii(tier), "sun_distance_km": SUN_DISTANCES,
                 "arc": "angle from the anti-Sun axis 0..180 deg by 5 (2 thorough) plus shadow edge +/- k*a/4, |k|<=14 (a/8, |k|<=40 thorough)"},
         "limb": {"sensor_radii_km": _limb_radii(tier), "offsets_rad": LIMB_OFFSETS, "below_limb_raises": True},
+        "callers": {
+            "epoch": _opt_epoch(seed).isoformat(),
+            "optical_space_limb": {
+                "sensor": "Optical from sensorFactory(OpticalConfig) on a stub spacecraft host",
+                "sensor_radii_km": _opt_sensor_radii(tier), "target_radii_km": _opt_target_radii(tier),
+                "pairs": "all sensor x target radii (equal, sensor above, sensor below)",
+                "sensor_sun_angles_deg": OPT_SUN_ANGLES_DEG, "position_angles_rad": OPT_PSI,
+                "nadir_angles": "0..180 deg by 7.5 (2.5 thorough) plus {sensor limb cone, cone of a sensor at the target's "
+                                "distance} +/- offsets_rad, Earth-disc edge -1e-3/+1e-5/+1e-3, middle of the atmosphere ring",
+                "offsets_rad": LIMB_OFFSETS, "crossings": "near and far crossing of the target shell",
+                "detectable_vismag": OPT_VISMAGS, "target": {"vcs_m2": OPT_VCS, "reflectivity": OPT_REFL},
+                "slant_vector": "geometric (radial vertical) for all; library getSlantRangeVector for position angle 0",
+                "library_frame_limb_band_rad": OPT_TILT_BAND,
+            },
+            "optical_space_cones": {"axes": CONE_AXES, "sensor_radii_km": CONE_SENSOR_RADII, "ranges_km": CONE_RANGES,
+                                    "angles": "1e-3..pi-1e-3 by 5 deg (1 thorough) plus threshold +/- {1e-9,1e-6,1e-3,1e-1}",
+                                    "planes": 2},
+            "optical_ground": {"site_sun_angles": "as cones, threshold 105 deg", "planes": 3, "az_deg": GROUND_AZ_DEG,
+                               "el_deg": GROUND_EL_DEG, "ranges_km": GROUND_RANGES},
+            "radar": {"kinds": RADAR_KINDS, "hosts": ["ground", "space 7000 km", "geo 42164 km"], "vcs_m2": RADAR_VCS,
+                      "range_factors_of_radar_equation_range": RADAR_RANGE_FACTORS, "az_deg": [10.0, 200.0, 359.995],
+                      "el_deg": [-30.0, 20.0, 80.0]},
+        },
         "angle_band_rad": ANG_BAND,
         "fov_band_rad": FOV_BAND,
         "sun_fraction_tol": SUN_TOL,
@@ -304,6 +361,7 @@ def _run_constants(res, item):
         ("Earth.radius", _f(Earth.radius), vg.R_EARTH),
         ("Earth.atmosphere", _f(Earth.atmosphere), vg.ATMOSPHERE),
         ("Sun.radius", _f(Sun.radius), vg.R_SUN),
+        ("Sun.absolute_magnitude", _f(Sun.absolute_magnitude), vg.SUN_MAGNITUDE),
         ("DEG2RAD", _f(rconst.DEG2RAD), DEG),
         ("PI", _f(rconst.PI), math.pi),
         ("TWOPI", _f(rconst.TWOPI), 2 * math.pi),
@@ -984,6 +1042,317 @@ def _run_subtended(res, item):
                         res.observe(got)
 
 
+# ================================================================================================ callers (sensor level)
+# Which state each geometric helper is handed by Optical / Radar / Sensor.isVisible: the whole decision chain is
+# re-evaluated in ECI from the host and target positions and compared with the verdict AND the miss reason.
+OPT_AZ_MASK = (0.0, 359.999)
+OPT_EL_MASK = (-89.999, 89.999)
+OPT_VISMAGS = [25.0, 12.0]  # library default; 12.0 splits the lattice (LEO<->GEO targets of 25 m^2 are magnitude 10..14)
+OPT_VCS, OPT_REFL = 25.0, 0.21
+OPT_TILT_BAND = 3.4e-3  # rad: geodetic vs radial vertical, <= e^2/2 = 3.35e-3 rad at the surface, less at altitude
+OPT_PSI = [0.3, 1.9, 3.5, 5.1]
+OPT_SUN_ANGLES_DEG = [35.0, 90.0, 140.0]  # sensor position angle from the Sun direction (day side, terminator, night side)
+GROUND_AZ_DEG = [10.0, 100.0, 190.0, 280.0]
+GROUND_EL_DEG = [5.0, 30.0, 80.0]
+GROUND_RANGES = [800.0, 2000.0, 36000.0]
+CONE_AXES = ["sun", "antisun", "galactic", "antigalactic"]
+CONE_SENSOR_RADII = [7000.0, 42164.0]
+CONE_RANGES = [3000.0, 30000.0]
+RADAR_KINDS = ["radar", "adv_radar"]
+RADAR_VCS = [0.01, 1.0, 10.0]
+RADAR_RANGE_FACTORS = [0.5, 1.0 - 1e-6, 1.0 + 1e-6, 2.0]
+RADAR_PARAMS = dict(tx_power=2.5e6, aperture_diameter=27.0, efficiency=0.9, tx_frequency=1.5e9,
+                    min_detectable_power=1.4314085925969573e-14)
+
+
+def _opt_sensor_radii(tier):
+    radii = [R + 101.0, 7000.0, 26560.0, 42164.0, 10 * R]
+    if tier == "thorough":
+        radii += [6700.0, 8000.0, 12000.0, 20000.0]
+    return radii
+
+
+def _opt_target_radii(tier):
+    radii = [6700.0, 7000.0, 26560.0, 42164.0, 10 * R]
+    if tier == "thorough":
+        radii += [R + 101.0, 8000.0, 12000.0, 20000.0]
+    return radii
+
+
+def _opt_epoch(seed):
+    return datetime(2021, 3, 20, 12, 0, 0) + timedelta(days=(37 * seed) % 365, hours=(5 * seed) % 24)
+
+
+class _OptHost:
+    """Stand-in for the SensingAgent: the attributes Optical/Radar/Sensor.isVisible read from their host."""
+
+    def __init__(self, eci_state, platform, epoch):
+        self.eci_state = np.array(eci_state, dtype=float)
+        self.time = 0.0
+        self.agent_type = PlatformLabel.SPACECRAFT if platform == "space" else PlatformLabel.GROUND_FACILITY
+        self.datetime_epoch = epoch
+        self.julian_date_epoch = datetimeToJulianDate(epoch)
+        self.simulation_id = 60001
+        self.sensor_time_bias_event_queue = []
+
+
+def _make_optical(vismag):
+    cfg = OpticalConfig(
+        azimuth_range=list(OPT_AZ_MASK), elevation_range=list(OPT_EL_MASK), covariance=scen.OPT_COV, aperture_diameter=1.0,
+        efficiency=0.98, slew_rate=5.0, detectable_vismag=vismag, field_of_view={"fov_shape": "conic", "cone_angle": 5.0},
+    )
+    return sensorFactory(cfg)
+
+
+def _make_radar(kind):
+    cls = RadarConfig if kind == "radar" else AdvRadarConfig
+    cfg = cls(
+        azimuth_range=[0.0, 359.99], elevation_range=[-89.9, 90.0], covariance=scen.RADAR_COV, slew_rate=3.0,
+        minimum_range=100.0, maximum_range=5.0e5, field_of_view={"fov_shape": "conic", "cone_angle": 10.0}, **RADAR_PARAMS,
+    )
+    return sensorFactory(cfg)
+
+
+def _sun_at(epoch):
+    return [float(x) for x in Sun.getPosition(datetimeToJulianDate(epoch))]
+
+
+def _sun_relative_dirs(sun, seed):
+    """Unit vectors at OPT_SUN_ANGLES_DEG from the Sun direction, each in its own plane (phase shifted by the seed)."""
+    shat = vg.unit(sun)
+    e1, e2 = vg.perp_frame(shat)
+    out = []
+    for k, ang in enumerate(OPT_SUN_ANGLES_DEG):
+        plane = 0.4 + 2.1 * k + 0.37 * seed
+        perp = vg.add(vg.scale(e1, math.cos(plane)), vg.scale(e2, math.sin(plane)))
+        a = (ang + math.fmod(1.3 * seed, 5.0)) * DEG
+        out.append(vg.add(vg.scale(shat, math.cos(a)), vg.scale(perp, math.sin(a))))
+    return out
+
+
+def _optical_expect(platform, host, tgt, sez, sun, vcs, refl, vismag_limit, limb_extra_band=0.0):
+    """(reason name, either_way, last stage evaluated, detail) in the documented order of the exits of Optical.isVisible."""
+    vis, why, either, _az, _el, _margin = _visible_expect(host[:3], tgt, sez, OPT_AZ_MASK, OPT_EL_MASK, 0.0, math.inf)
+    detail = {}
+    if not vis:
+        return why, either, "base", detail
+    # target lit at all: umbra <=> separation c <= b - a.  The fraction goes to 0 continuously at the umbra edge; 1e-7 rad
+    # covers the 1e-11 rad angle rounding with 4 orders of margin and is 5 orders below the lattice spacing
+    _frac, kind, (a, b, c) = vg.sun_fraction(tgt, sun)
+    either = either or abs(c - (b - a)) < 1e-7
+    detail["sun"] = kind
+    if kind == "umbra":
+        return "SOLAR_FLUX", either, "flux", detail
+    phase = vg.lambert_phase(vg.angle_between([q - p for p, q in zip(tgt[:3], sun)], [q - p for p, q in zip(tgt[:3], host[:3])]))
+    if phase <= 1e-14:  # looking straight into the Sun past the target: magnitude undefined within rounding
+        return "VIZ_MAG", True, "vismag", detail
+    mag, _phi = vg.apparent_vismag(vcs, refl, sun, tgt, host)
+    # absolute rounding of the phase function <= 4 eps -> 2.5/ln(10) * 4 eps / F magnitudes; factor 10 of margin
+    either = either or abs(mag - vismag_limit) < 1e-9 + 1e-14 / phase
+    detail["mag"] = mag
+    if mag > vismag_limit:
+        return "VIZ_MAG", either, "vismag", detail
+    bore = [q - p for p, q in zip(host[:3], tgt[:3])]
+    gal = vg.angle_between(bore, vg.GALACTIC_UNIT)
+    either = either or abs(gal - math.pi / 30) < ANG_BAND
+    detail["galactic_rad"] = gal
+    if gal < math.pi / 30:
+        return "GALACTIC_EXCLUSION", either, "galactic", detail
+    if platform == "space":
+        from_tgt = vg.angle_between(bore, [q - p for p, q in zip(tgt[:3], sun)])
+        from_host = vg.angle_between(bore, [q - p for p, q in zip(host[:3], sun)])
+        thr = math.pi / 12
+        either = either or abs(from_tgt - thr) < ANG_BAND or ((from_tgt >= thr) != (from_host >= thr))
+        detail["sun_rad"] = from_tgt
+        if from_tgt < thr:
+            return "SPACE_ILLUMINATION", either, "sun_cone", detail
+        inside, eta, cone = vg.in_limb_cone_eci(host, tgt)
+        x = (R + vg.ATMOSPHERE) / vg.norm(host)
+        band = ANG_BAND + 4 * vg.EPS / math.sqrt(max(1.0 - x * x, 2 * vg.EPS)) + limb_extra_band
+        either = either or abs(eta - cone) < band
+        detail.update(nadir_angle_rad=eta, cone_rad=cone)
+        return ("LIMB_OF_EARTH" if inside else "VISIBLE"), either, "limb", detail
+    site = vg.angle_between(host[:3], sun)
+    thr = math.pi / 2 + math.pi / 12
+    either = either or abs(site - thr) < ANG_BAND
+    detail["site_sun_rad"] = site
+    return ("VISIBLE" if site >= thr else "GROUND_ILLUMINATION"), either, "site_darkness", detail
+
+
+def _chain_case(res, sub, sensor, args, exp_why, either, nontriv, case, item, sig_extra=""):
+    """Run sensor.isVisible(*args) (the subclass method) and compare verdict and reason with the expected exit."""
+    got = _call(sensor.isVisible, *args)
+    if isinstance(got, _Raised):
+        got_vis, got_why, typed = None, repr(got), False
+    else:
+        got_vis, got_why, typed = bool(got[0]), getattr(got[1], "name", repr(got[1])), isinstance(got[1], Explanation)
+    ok = either or (typed and got_vis == (exp_why == "VISIBLE") and got_why == exp_why)
+    if either:
+        res.either_way += 1
+    res.case(sub, dict(case, expected=exp_why), ok, nontrivial=nontriv and not either,
+             signature=f"C14/{sub}/{sig_extra}expected_{exp_why}/got_{got_why}", observed=[got_vis, got_why],
+             expected=[exp_why == "VISIBLE", exp_why], outcome=f"{sig_extra}{exp_why}", item=item)
+    res.observe(got_vis, got_why)
+
+
+def _optical_pair(res, item):
+    sensors = []
+    for vm in OPT_VISMAGS:
+        sensor = _build(res, "optical/construct", _make_optical, item, vm)
+        if sensor is not None:
+            sensors.append((vm, sensor))
+    return sensors
+
+
+def _altitude_relation(r_s, r_t):
+    return "equal" if r_s == r_t else ("sensor_above" if r_s > r_t else "sensor_below")
+
+
+def _run_optical_limb(res, item):
+    _, tier, seed, si, ti = item
+    r_s, r_t = _opt_sensor_radii(tier)[si], _opt_target_radii(tier)[ti]
+    epoch = _opt_epoch(seed)
+    sun = _sun_at(epoch)
+    sensors = _optical_pair(res, item)
+    rel = _altitude_relation(r_s, r_t)
+    cone_s, cone_t, disc = vg.limb_cone(r_s), vg.limb_cone(r_t), math.asin(R / r_s)
+    etas = [k * 7.5 * DEG for k in range(25)] if tier == "quick" else [k * 2.5 * DEG for k in range(73)]
+    for off in LIMB_OFFSETS:
+        etas += [cone_s + off, cone_s - off, cone_t + off, cone_t - off]
+    etas += [cone_s, cone_t, disc - 1e-3, disc + 1e-5, disc + 1e-3, 0.5 * (disc + cone_s)]
+    etas = sorted({e for e in etas if 0.0 <= e <= math.pi})
+    for di, d in enumerate(_sun_relative_dirs(sun, seed)):
+        host = vg.scale(d, r_s) + [math.sqrt(398600.4418 / r_s) * c for c in vg.perp_frame(d)[0]]
+        for sensor_pair in sensors:
+            sensor_pair[1].host = _OptHost(host, "space", epoch)
+        for pi_, psi0 in enumerate(OPT_PSI):
+            psi = psi0 + 0.11 * (seed % 13)
+            for eta in etas:
+                u = vg.direction_from_nadir(host, eta, psi)
+                for which, rho in enumerate(vg.ray_sphere_ranges(r_s, eta, r_t)):
+                    if rho < 1.0:
+                        continue  # the target shell is the sensor's own: the crossing at the sensor itself is no target
+                    tgt = vg.add(host[:3], vg.scale(u, rho)) + [1.0, -2.0, 0.5]
+                    offset = [q - p for p, q in zip(host[:3], tgt[:3])]
+                    frames = [("geometric", vg.eci_offset_to_sez(host[:3], offset) + list(T_VEL), 0.0)]
+                    if pi_ == 0:
+                        lib = _call(getSlantRangeVector, _arr(host), _arr(tgt), epoch)
+                        if not isinstance(lib, _Raised):
+                            frames.append(("library", [float(x) for x in lib], OPT_TILT_BAND))
+                    for frame, sez, extra in frames:
+                        for vm, sensor in sensors:
+                            if frame == "library" and vm != OPT_VISMAGS[0]:
+                                continue
+                            why, either, stage, detail = _optical_expect("space", host, tgt, sez, sun, OPT_VCS, OPT_REFL, vm, extra)
+                            case = {"r_sensor_km": r_s, "r_target_km": r_t, "altitudes": rel, "dir": di, "psi": psi,
+                                    "eta_rad": eta, "crossing": which, "range_km": rho, "frame": frame, "vismag_limit": vm,
+                                    "host": host, "tgt": tgt, "sez": sez, "epoch": epoch.isoformat(), **detail}
+                            _chain_case(res, f"optical/space/limb/{frame}", sensor, (_arr(tgt), OPT_VCS, OPT_REFL, _arr(sez)),
+                                        why, either, stage == "limb", case, item, sig_extra=f"{rel}/")
+
+
+def _cone_axis(kind, sun):
+    axis = vg.unit(sun) if kind.endswith("sun") else list(vg.GALACTIC_UNIT)
+    return vg.scale(axis, -1.0) if kind.startswith("anti") else axis
+
+
+def _run_optical_cones(res, item):
+    _, tier, seed, ai = item
+    kind = CONE_AXES[ai]
+    epoch = _opt_epoch(seed)
+    sun = _sun_at(epoch)
+    sensors = _optical_pair(res, item)
+    axis = _cone_axis(kind, sun)
+    thr = math.pi / 12 if kind.endswith("sun") else math.pi / 30
+    e1, e2 = vg.perp_frame(axis)
+    for pi_, perp in enumerate((e1, vg.unit(vg.add(e1, vg.scale(e2, -0.7))))):
+        for th in _cone_thetas(tier, thr):
+            v = vg.add(vg.scale(axis, math.cos(th)), vg.scale(perp, math.sin(th)))
+            side = vg.perp_frame(v)[0]
+            for r_s in CONE_SENSOR_RADII:
+                # the sensor looks outwards, 17 deg off its zenith: the Earth is behind it
+                host_dir = vg.unit(vg.add(v, vg.scale(side, 0.3)))
+                host = vg.scale(host_dir, r_s) + [math.sqrt(398600.4418 / r_s) * c for c in vg.perp_frame(host_dir)[0]]
+                for _vm, sensor in sensors:
+                    sensor.host = _OptHost(host, "space", epoch)
+                for rho in CONE_RANGES:
+                    tgt = vg.add(host[:3], vg.scale(v, rho)) + [1.0, -2.0, 0.5]
+                    offset = [q - p for p, q in zip(host[:3], tgt[:3])]
+                    sez = vg.eci_offset_to_sez(host[:3], offset) + list(T_VEL)
+                    for vm, sensor in sensors:
+                        why, either, stage, detail = _optical_expect("space", host, tgt, sez, sun, OPT_VCS, OPT_REFL, vm)
+                        case = {"axis": kind, "plane": pi_, "angle_rad": th, "threshold_rad": thr, "r_sensor_km": r_s,
+                                "range_km": rho, "vismag_limit": vm, "host": host, "tgt": tgt, "sez": sez,
+                                "epoch": epoch.isoformat(), **detail}
+                        _chain_case(res, "optical/space/cones", sensor, (_arr(tgt), OPT_VCS, OPT_REFL, _arr(sez)), why, either,
+                                    stage in ("galactic", "sun_cone", "limb"), case, item, sig_extra=f"{kind}/")
+
+
+def _run_optical_ground(res, item):
+    _, tier, seed, k = item
+    epoch = _opt_epoch(seed)
+    sun = _sun_at(epoch)
+    sensors = _optical_pair(res, item)
+    shat = vg.unit(sun)
+    e1, e2 = vg.perp_frame(shat)
+    plane = 0.9 + 2.1 * k + 0.41 * seed
+    perp = vg.add(vg.scale(e1, math.cos(plane)), vg.scale(e2, math.sin(plane)))
+    for th in _cone_thetas(tier, math.pi / 2 + math.pi / 12):
+        site_dir = vg.add(vg.scale(shat, math.cos(th)), vg.scale(perp, math.sin(th)))
+        if abs(site_dir[2]) > 0.999:
+            continue  # the geometric S/E axes are undefined at the pole
+        host = vg.scale(site_dir, R + 0.1) + [0.0, 0.0, 0.0]
+        for _vm, sensor in sensors:
+            sensor.host = _OptHost(host, "ground", epoch)
+        for az_deg in GROUND_AZ_DEG:
+            for el_deg in GROUND_EL_DEG:
+                for rho in GROUND_RANGES:
+                    sez = vg.sez_from_azel(az_deg * DEG, el_deg * DEG, rho, T_VEL)
+                    tgt = vg.add(host[:3], vg.sez_to_eci_offset(host[:3], sez)) + [1.0, -2.0, 0.5]
+                    for vm, sensor in sensors:
+                        why, either, stage, detail = _optical_expect("ground", host, tgt, sez, sun, OPT_VCS, OPT_REFL, vm)
+                        case = {"plane": k, "site_sun_angle_rad": th, "az_deg": az_deg, "el_deg": el_deg, "range_km": rho,
+                                "vismag_limit": vm, "host": host, "tgt": tgt, "sez": sez, "epoch": epoch.isoformat(), **detail}
+                        _chain_case(res, "optical/ground", sensor, (_arr(tgt), OPT_VCS, OPT_REFL, _arr(sez)), why, either,
+                                    stage == "site_darkness", case, item)
+
+
+def _run_radar_callers(res, item):
+    _, tier, seed, ki = item
+    kind = RADAR_KINDS[ki]
+    sensor = _build(res, "radar/construct", _make_radar, item, kind)
+    if sensor is None:
+        return
+    epoch = _opt_epoch(seed)
+    az_mask, el_mask = (0.0, 359.99), (-89.9, 90.0)
+    hosts = _hosts(seed) + [("geo", vg.scale(vg.unit([-0.6, 0.7, 0.1]), 42164.0) + [2.0, 1.5, 1.0])]
+    for hname, host in hosts:
+        sensor.host = _OptHost(host, "ground" if hname == "ground" else "space", epoch)
+        for vcs in RADAR_VCS:
+            rmax = vg.radar_max_range_km(RADAR_PARAMS["tx_power"], RADAR_PARAMS["aperture_diameter"], RADAR_PARAMS["efficiency"],
+                                         RADAR_PARAMS["tx_frequency"], RADAR_PARAMS["min_detectable_power"], vcs)
+            for factor in RADAR_RANGE_FACTORS:
+                rho = rmax * factor
+                for az_deg in (10.0, 200.0, 359.995):
+                    for el_deg in (-30.0, 20.0, 80.0):
+                        sez = vg.sez_from_azel(az_deg * DEG, el_deg * DEG, rho, T_VEL)
+                        tgt = vg.add(host[:3], vg.sez_to_eci_offset(host[:3], sez)) + [1.0, -2.0, 0.5]
+                        if vg.norm(tgt) < R + 1e-6:
+                            continue  # below the surface: outside the quantifier
+                        vis, why, either, _az, _el, _m = _visible_expect(host[:3], tgt, sez, az_mask, el_mask, 100.0, 5.0e5)
+                        base_passed = vis
+                        if vis:
+                            # fourth root of a product of O(10) factors: relative rounding <= 1e-14; 1e-9 keeps 3 orders
+                            # below the lattice offset 1e-6
+                            either = either or abs(vg.norm(sez) - rmax) < 1e-9 * rmax
+                            if vg.norm(sez) > rmax:
+                                why = "RADAR_SENSITIVITY"
+                        case = {"kind": kind, "host": hname, "vcs_m2": vcs, "max_range_km": rmax, "factor": factor,
+                                "az_deg": az_deg, "el_deg": el_deg, "range_km": rho, "tgt": tgt, "sez": sez}
+                        _chain_case(res, "radar/callers", sensor, (_arr(tgt), vcs, 0.2, _arr(sez)), why, either, base_passed,
+                                    case, item, sig_extra=f"{kind}/{hname}/")
+
+
 _RUNNERS = {
     "constants": _run_constants,
     "los_pairs": _run_los_pairs,
@@ -1003,6 +1372,10 @@ _RUNNERS = {
     "azel_zenith": _run_azel_zenith,
     "wrap": _run_wrap,
     "subtended": _run_subtended,
+    "optical_limb": _run_optical_limb,
+    "optical_cones": _run_optical_cones,
+    "optical_ground": _run_optical_ground,
+    "radar_callers": _run_radar_callers,
 }
 
 
